@@ -179,8 +179,10 @@ def run(ctx):
     # a test recording requested so that it starts on the very frame that triggers a motion recording: both recorders
     # open their files within the same Process call (recording names have millisecond resolution)
     trng = ctx.sub_rng("snapshot.trigger-frame-requests")
-    for i in range(6 if tier == "quick" else 40):
+    for i in range(18 if tier == "quick" else 60):
         fps, preview, trig = trng.choice([1, 2, 3]), trng.choice([0, 1]), trng.choice([1, 2, 3])
+        if i % 2:
+            preview, trig = 0, 1          # nothing is written between the two starts: the same millisecond is most likely
         mn = trng.choice([1, 2]); mx = mn + trng.choice([2, 4])
         steps = [dict(a="frame", motion=False) for _ in range(trng.randint(1, 5))]
         steps += [dict(a="frame", motion=True) for _ in range(trig - 1)]
